@@ -367,3 +367,24 @@ func vfH_C10_session_wire_sizes() {
 		vfAssert("wire/size<=session-mtu", len(w.data) <= m)
 	}
 }
+
+// an OOB message carrying another conversation id, arriving from the address of an existing
+// session, is never handed to that session's handler — whatever its length
+func vfH_C19_oob_foreign_conv() {
+	ck := []int{vfCipherNil, vfCipherNone}[vfPick("cipher", 0, 1)]
+	pr := vfConnect(ck, 2, 1, 1)
+	vfAssert("connect/accepted", pr.srv != nil)
+	calls := 0
+	pr.srv.SetOOBHandler(func(b []byte) { calls++ })
+	conn2 := vfNewConn()
+	other := vfNewSession(vfU32("conv2"), 2, 1, nil, conn2, vfServerAddr, vfMakeCipher(ck))
+	vfAssume(other.kcp.conv != pr.srv.kcp.conv)
+	n := []int{0, 1, 5, 19, 20, 21, 40}[vfPick("len", 0, 6)]
+	vfAssert("oob/sent", other.SendOOB(vfBytes("oob", n)) == nil)
+	vfDrainTx(other)
+	vfAssert("oob/one-datagram", len(conn2.writes) == 1)
+	vfReach("pre")
+	pr.l.packetInput(vfCopy(conn2.writes[0].data), vfClientAddr)
+	vfReach("post")
+	vfAssert("oob/foreign-conversation-never-reaches-this-session's-handler", calls == 0)
+}
